@@ -28,6 +28,9 @@ type Plan struct {
 	Replays   []ReplaySpec
 	Bounded   []string
 	Explain   string
+	// Elsewhere: function (as in a verify line) -> property whose plan verifies its contract;
+	// the contract is used here and not re-checked.
+	Elsewhere map[string]string
 }
 
 type ReplaySpec struct {
@@ -71,6 +74,30 @@ func LoadPlan(path string) (*Plan, error) {
 			p.Explain = rest
 		case "bounded":
 			p.Bounded = append(p.Bounded, rest)
+		case "elsewhere":
+			// elsewhere <Cxx> <func>: the contract of func is checked by property Cxx's plan
+			fs := strings.Fields(rest)
+			if len(fs) != 2 {
+				return nil, fmt.Errorf("%s: bad elsewhere line %q", path, line)
+			}
+			other, err := os.ReadFile(filepath.Join(filepath.Dir(path), fs[0]+".plan"))
+			if err != nil {
+				return nil, fmt.Errorf("%s: elsewhere: %v", path, err)
+			}
+			found := false
+			for _, ol := range strings.Split(string(other), "\n") {
+				if of := strings.Fields(ol); len(of) == 2 && of[0] == "verify" && of[1] == fs[1] {
+					found = true
+				}
+			}
+			if !found {
+				return nil, fmt.Errorf("%s: elsewhere: %s.plan has no line 'verify %s'", path, fs[0], fs[1])
+			}
+			if p.Elsewhere == nil {
+				p.Elsewhere = map[string]string{}
+			}
+			p.Elsewhere[fs[1]] = fs[0]
+			p.Assume = append(p.Assume, fmt.Sprintf("the contract of %s is used here and checked under property %s, not re-checked by this check", fs[1], fs[0]))
 		case "replay":
 			// replay <obligation-name prefix (may contain spaces)> <template file>
 			fs := strings.Fields(rest)
@@ -234,6 +261,13 @@ func runCheck(o *checkOpts) int {
 			seen[FuncName(fn)] = true
 			queue = append(queue, item{FuncName(fn), fn})
 		}
+	}
+	for v := range plan.Elsewhere {
+		fn := prog.FindFunc(v)
+		if fn == nil {
+			return toolErr("bind-error: function %q (elsewhere) not found (renamed or removed?)", v)
+		}
+		seen[FuncName(fn)] = true
 	}
 	var results []*FuncResult
 	for i := 0; i < len(queue); i++ {
